@@ -208,11 +208,88 @@ class SymExec:
                 if x["kind"] == "ForStmt":
                     return self.stmt(x, st)
             return [st]
-        if k in ("WhileStmt", "DoStmt", "SwitchStmt"):
+        if k == "SwitchStmt":
+            return self.switch(n, st)
+        if k in ("WhileStmt", "DoStmt"):
             raise Unsupported("statement kind %s at line %s" % (k, C.line(n)))
         # expression statement
         self.expr(n, st)
         return [st]
+
+    def switch(self, n, st):
+        """switch (v) { case L: ...; break; ... default: ... }: the statements from the label that equals v up to the next break / return.  v is compared
+        with the labels as values (enum constants are distinct symbols); when v is not one of them the switch is entered once per label, under the
+        condition v == label, and once past all labels (default, or nothing)"""
+        ks = [x for x in C.kids(n)]
+        body = [x for x in ks if x["kind"] == "CompoundStmt"]
+        if not body:
+            raise Unsupported("switch without a compound body at line %s" % C.line(n))
+        cond = [x for x in ks if x is not body[-1]][-1]
+        v = self.expr(cond, st)
+        items = []          # (labels, statement): labels = values of the case labels in front of the statement, "default" for default
+
+        def unwrap(s_, labels):
+            if s_["kind"] == "CaseStmt":
+                kk = C.kids(s_)
+                return unwrap(kk[-1], labels + [self.expr(kk[0], st)])
+            if s_["kind"] == "DefaultStmt":
+                return unwrap(C.kids(s_)[-1], labels + ["default"])
+            items.append((labels, s_))
+        for s_ in C.kids(body[-1]):
+            unwrap(s_, [])
+        all_labels = [l_ for labs, _ in items for l_ in labs if not isinstance(l_, str)]
+
+        def same(a_, b_):
+            return isinstance(a_, Rat) and isinstance(b_, Rat) and (a_ - b_).n.is_zero()
+
+        def run_from(k_, s0):
+            cur, out = [s0], []
+            for labs, stmt_ in items[k_:]:
+                nxt = []
+                for x_ in cur:
+                    for y_ in self.stmt(stmt_, x_):
+                        if y_.done:
+                            out.append(y_)
+                        elif y_.loopctl == "break":
+                            y_.loopctl = None
+                            out.append(y_)
+                        elif y_.loopctl == "continue":
+                            out.append(y_)          # belongs to an enclosing loop
+                        else:
+                            nxt.append(y_)
+                cur = nxt
+                if not cur:
+                    break
+            return out + cur
+        decided = isinstance(v, Rat) and (v.const_value() is not None or any(same(v, l_) for l_ in all_labels) or
+                                          (len(v.vars()) == 1 and v.poly() is not None and all(len(l_.vars()) == 1 for l_ in all_labels if isinstance(l_, Rat))
+                                           and next(iter(v.vars())).isupper()))
+        if decided:
+            for k_, (labs, _) in enumerate(items):
+                if any(same(v, l_) for l_ in labs if not isinstance(l_, str)):
+                    return run_from(k_, st)
+            for k_, (labs, _) in enumerate(items):
+                if "default" in labs:
+                    return run_from(k_, st)
+            return [st]
+        out = []
+        ctext = re.sub(r"\s", "", C.text(cond))
+        for k_, (labs, _) in enumerate(items):
+            for l_ in labs:
+                if isinstance(l_, str):
+                    continue
+                b_ = st.fork()
+                b_.conds.append(("%s==%s" % (ctext, repr(l_)), True))
+                b_.cvals.append(("%s==%s" % (ctext, repr(l_)), True))
+                b_.cexprs.append((None, True))
+                out += run_from(k_, b_)
+        rest = st.fork()
+        rest.conds.append(("%s==<no label>" % ctext, True))
+        rest.cvals.append(("%s==<no label>" % ctext, True))
+        rest.cexprs.append((None, True))
+        dk = next((k_ for k_, (labs, _) in enumerate(items) if "default" in labs), None)
+        out += run_from(dk, rest) if dk is not None else [rest]
+        return out
 
     def vardecl(self, v, st):
         name = self._k(v.get("name"))
@@ -374,6 +451,8 @@ class SymExec:
             return Rat(Poly.const(int(n.get("value"))))
         if k == "FloatingLiteral":
             return Rat(Poly.const(Fraction(str(n.get("value")))))
+        if k == "CharacterLiteral":
+            return Rat(Poly.const(int(n.get("value"))))
         if k == "CXXBoolLiteralExpr":
             return Rat(Poly.const(1 if n.get("value") else 0))
         if k in ("CXXNullPtrLiteralExpr", "GNUNullExpr"):
